@@ -25,7 +25,10 @@ ASSUMPTIONS = [
     "the triangular Jacobian",
     "function values have exact signs (family chosen so), roots are representable in the dtype",
 ]
-KINDS = ["linear", "cubic", "sinh", "saturating", "kinked", "flatkink"]
+KINDS = ["linear", "cubic", "sinh", "saturating", "kinked", "flatkink", "tiny_values", "huge_values"]
+# tiny_values / huge_values: s * u with s so small (large) that the PRODUCT of two function values under(over)flows while every
+# single value keeps an exact sign (smallest |u| met is ~1e-16 in float64, ~1e-11 in float32)
+OUT_SCALE = {"float64": (1e-170, 1e170), "float32": (1e-25, 1e25)}
 SLOPES = [1e-3, 1.0, 1e3]
 INTERVALS = [(-10.0, 10.0), (0.0, 1.0), (-1e-3, 1e-3), (5.0, 6.0)]
 TOLS = [1e-2, 1e-3, 1e-4, 1e-5, 1e-6, 1e-7, 1e-8, 1e-9]
@@ -71,6 +74,7 @@ def enumerate_cases(tier, seed):
 def _fam(jnp, lax):
     def f(kind, a, r, x):
         u = a * (x - r)
+        tiny, huge = OUT_SCALE[str(jnp.asarray(u).dtype)] if str(jnp.asarray(u).dtype) in OUT_SCALE else (1.0, 1.0)
         return lax.switch(
             kind,
             [
@@ -80,6 +84,8 @@ def _fam(jnp, lax):
                 lambda u: jnp.tanh(u) + 0.01 * u,
                 lambda u: jnp.where(u < 0, 0.1 * u, 5.0 * u),
                 lambda u: jnp.where(jnp.abs(u) < 1, 1e-3 * u, u - jnp.sign(u) * (1 - 1e-3)),
+                lambda u: tiny * u,
+                lambda u: huge * u,
             ],
             u,
         )
